@@ -55,7 +55,7 @@ checks = {
    text="Bounded-exhaustive histories of tagged write / tagged read / commit / rollback with symbolic values AND symbolic tags (the executor forks on every tag comparison) on the real Context transaction map and rename table and on the bare comp.RAT with rings 2 and 3 (wrap-around inside short histories), against a list of tagged writes.",
    design="§5 C15", note=BASE_NOTE + "Tags positive and distinct per register; strong clauses only while pending writes per register <= slots; a tagged read may return the committed value or any pending write with tag <= t. Known finding (recorded, not repaired): out-of-program-order arrival of writes to one register in the rename table (last-written-wins)."),
  "C02": dict(
-   text="For each of the 45 mnemonics and each register-name pattern the real Run/ReadRegisters/WriteRegisters/MemoryRead/MemoryWrite are executed symbolically with all register values, immediates, offsets, pc, branch target and loaded bytes as SMT variables and compared with the RV32IM definition written in the harness; the solver decides every assertion for all 2^32..2^160 operand combinations of that pattern (quick: canonical alias patterns; thorough: all 5^k name tuples).",
+   text="For each of the 45 mnemonics and each register-name pattern the real Run/ReadRegisters/WriteRegisters/MemoryRead/MemoryWrite are executed symbolically with all register values, immediates, offsets, pc, branch target and loaded bytes as SMT variables and compared with the RV32IM definition written in the harness; the solver decides every assertion for all 2^32..2^160 operand combinations of that pattern (both tiers: all 5^k register-name tuples; the thorough tier re-asks every obligation of a second solver build, z3 5.1.0).",
    design="§5 C02", note=BASE_NOTE + "Assumes shift immediates in 0..31, pc/targets multiples of 4 in [0,2^20), code uniform in register names beyond {zero,ra,t0,t1,t2}; division by zero must be an error value."),
 }
 
